@@ -269,7 +269,7 @@ Section Repeat.
     induction n as [|n IH]; intros d vs t Hh H1.
     - destruct Hh as [(l & Hl)|[]]. exists t. split; [|apply (leaf_result_teq o d vs l t Hl H1)].
       rewrite trace_seq_same in *. apply (leaf_repeat o d vs l t Hl H1).
-    - destruct Hh as [(l & Hl)|[(ls & Hc & Hh)|[(SS & Hc & Hnd & Hh)|[(Hm & SS & Hc & Hnd & Hh)|[(Hm & kvss & Hc & Hhk & Hhv)|[(ls & Hc & Hh)|(HF & Hh)]]]]]].
+    - destruct Hh as [(l & Hl)|[(ls & Hc & Hh)|[(RS & Hc & Hm & Hnd & Hh)|[(Hm & kvss & Hc & Hhk & Hhv)|[(TS & Hc & Hh)|(HF & Hh)]]]]].
       + exists t. split; [|apply (leaf_result_teq o d vs l t Hl H1)]. rewrite trace_seq_same in *. apply (leaf_repeat o d vs l t Hl H1).
       + (* sequences *)
         destruct ls as [|l0 r0].
@@ -283,43 +283,19 @@ Section Repeat.
         rewrite cores_app, Hc, <- map_app, nullish_dup.
         rewrite (seq_complete o d ((l0 :: r0) ++ (l0 :: r0)) it2 Hd ltac:(discriminate)) by (rewrite concat_app; exact Hi2).
         rewrite omk_ok. eexists. split; [reflexivity|]. apply teq_mk. constructor. exact Hteq.
-      + (* records *)
-        destruct SS as [|fa0 r0].
+      + (* records, as structs or as maps with string keys *)
+        destruct RS as [|x0 r0].
         { destruct (cores_nil_atoms o vs Hc) as (l & Hl). exists t. split; [|apply (leaf_result_teq o d vs l t Hl H1)]. rewrite trace_seq_same in *. apply (leaf_repeat o d vs l t Hl H1). }
-        rewrite (strip0 o d vs) in H1 by (rewrite Hc; first [apply containers_map; reflexivity|discriminate]). rewrite Hc in H1.
-        destruct (omk_ok_inv _ _ _ H1) as (u & E1 & ->).
-        pose proof (struct_depth_ok o d fa0 r0 false u E1) as Hd.
-        destruct (record_projection o d (fa0 :: r0) false u ltac:(discriminate) Hnd E1) as (fs1 & -> & P1).
-        set (SS := fa0 :: r0) in *.
-        assert (Hnd2 : Forall (fun fa => NoDup (map fst fa)) (SS ++ SS)) by (apply Forall_app; split; exact Hnd).
-        assert (Hall : forall k, exists T, trace_seq' o (S d + count_dots k) (vals k (SS ++ SS)) (Ok (TUnknown false)) = Ok T /\
-                                        (forall T1 l1, fget2 k fs1 = Some (T1, l1) -> exists T0, T1 = mk (missing k SS) T0 /\ teq T0 T)).
-        { intros k. rewrite vals_app. specialize (P1 k). destruct (fget2 k fs1) as [[tk lk]|].
-          - destruct P1 as (_ & T0 & R0 & ->). destruct (IH _ (vals k SS) T0 (Hh k) R0) as (T2 & R2 & Hq). exists T2. split; [exact R2|].
-            intros T1 l1 E. injection E as <- <-. exists T0. split; [reflexivity|exact Hq].
-          - rewrite P1. exists (TUnknown false). split; [reflexivity|]. intros T1 l1 E. discriminate. }
-        destruct (record_complete o d (SS ++ SS) false Hd Hnd2 (fun k => let (T, HT) := Hall k in ex_intro _ T (proj1 HT))) as (u2 & E2).
-        rewrite (strip0 o d (vs ++ vs)) by (rewrite cores_app, Hc, <- map_app; first [apply containers_map; reflexivity|discriminate]).
-        rewrite cores_app, Hc, <- map_app, nullish_dup, E2, omk_ok. eexists. split; [reflexivity|]. apply teq_mk.
-        destruct (record_projection o d (SS ++ SS) false u2 ltac:(discriminate) Hnd2 E2) as (fs2 & -> & P2).
-        apply teq_struct.
-        -- intros k. specialize (P1 k). specialize (P2 k). rewrite vals_app in P2.
-           destruct (fget2 k fs1) as [[t1 l1]|], (fget2 k fs2) as [[t2 l2]|]; split; intros Hx; try discriminate; try reflexivity.
-           ++ destruct P1 as (Hne & _). rewrite (proj1 (app_eq_nil _ _ P2)) in Hne. contradiction.
-           ++ destruct P2 as (Hne & _). rewrite P1 in Hne. contradiction.
-        -- intros k t1 l1 t2 l2 G1 G2. specialize (P2 k). rewrite G2 in P2. destruct P2 as (_ & T2 & R2 & ->).
-           destruct (Hall k) as (T & RT & Hrel). destruct (Hrel t1 l1 G1) as (T0 & -> & Hq). rewrite RT in R2. injection R2 as <-.
-           rewrite missing_dup. apply teq_mk. exact Hq.
-      + (* records presented as maps *)
-        destruct SS as [|fa0 r0].
-        { destruct (cores_nil_atoms o vs Hc) as (l & Hl). exists t. split; [|apply (leaf_result_teq o d vs l t Hl H1)]. rewrite trace_seq_same in *. apply (leaf_repeat o d vs l t Hl H1). }
-        rewrite (strip0 o d vs) in H1 by (rewrite Hc; first [apply containers_map; reflexivity|discriminate]). rewrite Hc in H1.
-        rewrite (maps_collection o d (fa0 :: r0) Hm ltac:(discriminate)) in H1.
+        assert (Hrc : forall a, is_container (rec a) = true) by (intros [[|] ?]; reflexivity).
+        rewrite (strip0 o d vs) in H1 by (rewrite Hc; first [apply containers_map; exact Hrc|discriminate]). rewrite Hc in H1.
+        rewrite (recs_collection o d (x0 :: r0) false Hm) in H1.
         destruct (omk_ok_inv _ _ _ H1) as (w & E1 & ->).
-        destruct (trace_seq' o d (map VStruct (fa0 :: r0)) (Ok (TUnknown false))) as [u| |p] eqn:F1; try discriminate E1. cbn [omode] in E1. injection E1 as <-.
-        pose proof (struct_depth_ok o d fa0 r0 false u F1) as Hd.
-        destruct (record_projection o d (fa0 :: r0) false u ltac:(discriminate) Hnd F1) as (fs1 & -> & P1).
-        set (SS := fa0 :: r0) in *.
+        set (RS := x0 :: r0) in *. set (SS := map snd RS) in *. set (bb := existsb fst RS) in *.
+        assert (HneS : SS <> []) by (unfold SS, RS; discriminate).
+        destruct (trace_seq' o d (map VStruct SS) (Ok (TUnknown false))) as [u| |p] eqn:F1; [|rewrite obm_err in E1; discriminate|rewrite obm_panic in E1; discriminate].
+        rewrite obm_ok in E1. injection E1 as <-.
+        assert (Hd : Nat.leb max_depth d = false) by (unfold SS, RS in F1; cbn [map] in F1; apply (struct_depth_ok o d _ _ false u F1)).
+        destruct (record_projection o d SS false u HneS Hnd F1) as (fs1 & -> & P1).
         assert (Hnd2 : Forall (fun fa => NoDup (map fst fa)) (SS ++ SS)) by (apply Forall_app; split; exact Hnd).
         assert (Hall : forall k, exists T, trace_seq' o (S d + count_dots k) (vals k (SS ++ SS)) (Ok (TUnknown false)) = Ok T /\
                                         (forall T1 l1, fget2 k fs1 = Some (T1, l1) -> exists T0, T1 = mk (missing k SS) T0 /\ teq T0 T)).
@@ -328,18 +304,21 @@ Section Repeat.
             intros T1 l1 E. injection E as <- <-. exists T0. split; [reflexivity|exact Hq].
           - rewrite P1. exists (TUnknown false). split; [reflexivity|]. intros T1 l1 E. discriminate. }
         destruct (record_complete o d (SS ++ SS) false Hd Hnd2 (fun k => let (T, HT) := Hall k in ex_intro _ T (proj1 HT))) as (u2 & E2).
-        rewrite (strip0 o d (vs ++ vs)) by (rewrite cores_app, Hc, <- map_app; first [apply containers_map; reflexivity|discriminate]).
-        rewrite cores_app, Hc, <- map_app, nullish_dup, (maps_collection o d (SS ++ SS) Hm ltac:(discriminate)), E2. cbn [omode]. rewrite omk_ok.
+        assert (Hm2 : existsb fst (RS ++ RS) = true -> o_map_as_struct o = true) by (rewrite existsb_app; fold bb; destruct bb; [intros _; apply Hm; reflexivity|discriminate]).
+        rewrite (strip0 o d (vs ++ vs)) by (rewrite cores_app, Hc, <- map_app; first [apply containers_map; exact Hrc|discriminate]).
+        rewrite cores_app, Hc, <- map_app, nullish_dup, (recs_collection o d (RS ++ RS) false Hm2), map_app. fold SS. rewrite E2, obm_ok, omk_ok.
         eexists. split; [reflexivity|]. apply teq_mk.
-        destruct (record_projection o d (SS ++ SS) false u2 ltac:(discriminate) Hnd2 E2) as (fs2 & -> & P2).
-        cbn [fmode]. apply teq_mstruct.
-        -- intros k. specialize (P1 k). specialize (P2 k). rewrite vals_app in P2.
-           destruct (fget2 k fs1) as [[t1 l1]|], (fget2 k fs2) as [[t2 l2]|]; split; intros Hx; try discriminate; try reflexivity.
-           ++ destruct P1 as (Hne & _). rewrite (proj1 (app_eq_nil _ _ P2)) in Hne. contradiction.
-           ++ destruct P2 as (Hne & _). rewrite P1 in Hne. contradiction.
-        -- intros k t1 l1 t2 l2 G1 G2. specialize (P2 k). rewrite G2 in P2. destruct P2 as (_ & T2 & R2 & ->).
-           destruct (Hall k) as (T & RT & Hrel). destruct (Hrel t1 l1 G1) as (T0 & -> & Hq). rewrite RT in R2. injection R2 as <-.
-           rewrite missing_dup. apply teq_mk. exact Hq.
+        destruct (record_projection o d (SS ++ SS) false u2 ltac:(intros E; apply app_eq_nil in E as [E _]; contradiction) Hnd2 E2) as (fs2 & -> & P2).
+        assert (Hnone : forall k, fget2 k fs1 = None <-> fget2 k fs2 = None).
+        { intros k. specialize (P1 k). specialize (P2 k). rewrite vals_app in P2.
+          destruct (fget2 k fs1) as [[t1 l1]|], (fget2 k fs2) as [[t2 l2]|]; split; intros Hx; try discriminate; try reflexivity.
+          - destruct P1 as (Hne & _). rewrite (proj1 (app_eq_nil _ _ P2)) in Hne. contradiction.
+          - destruct P2 as (Hne & _). rewrite P1 in Hne. contradiction. }
+        assert (Hsome : forall k t1 l1 t2 l2, fget2 k fs1 = Some (t1, l1) -> fget2 k fs2 = Some (t2, l2) -> teq t1 t2).
+        { intros k t1 l1 t2 l2 G1 G2. specialize (P2 k). rewrite G2 in P2. destruct P2 as (_ & T2 & R2 & ->).
+          destruct (Hall k) as (T & RT & Hrel). destruct (Hrel t1 l1 G1) as (T0 & -> & Hq). rewrite RT in R2. injection R2 as <-.
+          rewrite missing_dup. apply teq_mk. exact Hq. }
+        rewrite existsb_app. fold bb. destruct bb; cbn [orb bmode fmode]; [apply teq_mstruct|apply teq_struct]; assumption.
       + (* maps traced as maps *)
         destruct kvss as [|kv0 r0].
         { destruct (cores_nil_atoms o vs Hc) as (l & Hl). exists t. split; [|apply (leaf_result_teq o d vs l t Hl H1)]. rewrite trace_seq_same in *. apply (leaf_repeat o d vs l t Hl H1). }
@@ -356,37 +335,22 @@ Section Repeat.
         rewrite (strip0 o d (vs ++ vs)) by (rewrite cores_app, Hc, <- map_app; first [apply containers_map; reflexivity|discriminate]).
         rewrite cores_app, Hc, <- map_app, nullish_dup, E2, omk_ok. eexists. split; [reflexivity|]. apply teq_mk. apply teq_map; assumption.
       + (* tuples and tuple structs *)
-        destruct Hc as [Hc|Hc].
-        { destruct ls as [|l0 r0].
-          { destruct (cores_nil_atoms o vs Hc) as (l & Hl). exists t. split; [|apply (leaf_result_teq o d vs l t Hl H1)]. rewrite trace_seq_same in *. apply (leaf_repeat o d vs l t Hl H1). }
-          rewrite (strip0 o d vs) in H1 by (rewrite Hc; first [apply containers_map; reflexivity|discriminate]). rewrite Hc in H1.
-          destruct (omk_ok_inv _ _ _ H1) as (u & E1 & ->).
-          pose proof (tuple_depth_ok o d l0 r0 false u E1) as Hd.
-          destruct (tuple_projection o d (l0 :: r0) false u ltac:(discriminate) E1) as (F & -> & Hlen & Hcol).
-          set (LS := l0 :: r0) in *.
-          assert (Hall : forall i, exists T, trace_seq' o (S d) (col i (LS ++ LS)) (Ok (TUnknown false)) = Ok T /\ teq (nth_tracer F i) T).
-          { intros i. rewrite col_app. destruct (IH (S d) (col i LS) _ (Hh i) (Hcol i)) as (T2 & R2 & Hq). exists T2. split; assumption. }
-          destruct (tuple_complete o d (LS ++ LS) false Hd (fun i => let (T, HT) := Hall i in ex_intro _ T (proj1 HT))) as (u2 & E2).
-          rewrite (strip0 o d (vs ++ vs)) by (rewrite cores_app, Hc, <- map_app; first [apply containers_map; reflexivity|discriminate]).
-          rewrite cores_app, Hc, <- map_app, nullish_dup. rewrite E2, omk_ok. eexists. split; [reflexivity|]. apply teq_mk.
-          destruct (tuple_projection o d (LS ++ LS) false u2 ltac:(discriminate) E2) as (F2 & -> & Hlen2 & Hcol2).
-          apply teq_tuple; [rewrite Hlen, Hlen2, maxlen_app; lia|].
-          intros i. destruct (Hall i) as (T & RT & Hq). rewrite (Hcol2 i) in RT. injection RT as <-. exact Hq. }
-        { destruct ls as [|l0 r0].
-          { destruct (cores_nil_atoms o vs Hc) as (l & Hl). exists t. split; [|apply (leaf_result_teq o d vs l t Hl H1)]. rewrite trace_seq_same in *. apply (leaf_repeat o d vs l t Hl H1). }
-          rewrite (strip0 o d vs) in H1 by (rewrite Hc; first [apply containers_map; reflexivity|discriminate]). rewrite Hc in H1. rewrite tuple_structs in H1.
-          destruct (omk_ok_inv _ _ _ H1) as (u & E1 & ->).
-          pose proof (tuple_depth_ok o d l0 r0 false u E1) as Hd.
-          destruct (tuple_projection o d (l0 :: r0) false u ltac:(discriminate) E1) as (F & -> & Hlen & Hcol).
-          set (LS := l0 :: r0) in *.
-          assert (Hall : forall i, exists T, trace_seq' o (S d) (col i (LS ++ LS)) (Ok (TUnknown false)) = Ok T /\ teq (nth_tracer F i) T).
-          { intros i. rewrite col_app. destruct (IH (S d) (col i LS) _ (Hh i) (Hcol i)) as (T2 & R2 & Hq). exists T2. split; assumption. }
-          destruct (tuple_complete o d (LS ++ LS) false Hd (fun i => let (T, HT) := Hall i in ex_intro _ T (proj1 HT))) as (u2 & E2).
-          rewrite (strip0 o d (vs ++ vs)) by (rewrite cores_app, Hc, <- map_app; first [apply containers_map; reflexivity|discriminate]).
-          rewrite cores_app, Hc, <- map_app, nullish_dup. rewrite tuple_structs. rewrite E2, omk_ok. eexists. split; [reflexivity|]. apply teq_mk.
-          destruct (tuple_projection o d (LS ++ LS) false u2 ltac:(discriminate) E2) as (F2 & -> & Hlen2 & Hcol2).
-          apply teq_tuple; [rewrite Hlen, Hlen2, maxlen_app; lia|].
-          intros i. destruct (Hall i) as (T & RT & Hq). rewrite (Hcol2 i) in RT. injection RT as <-. exact Hq. }
+        destruct TS as [|x0 r0].
+        { destruct (cores_nil_atoms o vs Hc) as (l & Hl). exists t. split; [|apply (leaf_result_teq o d vs l t Hl H1)]. rewrite trace_seq_same in *. apply (leaf_repeat o d vs l t Hl H1). }
+        assert (Htc : forall a, is_container (tup a) = true) by (intros [[|] ?]; reflexivity).
+        rewrite (strip0 o d vs) in H1 by (rewrite Hc; first [apply containers_map; exact Htc|discriminate]). rewrite Hc, tups_collection in H1.
+        destruct (omk_ok_inv _ _ _ H1) as (u & E1 & ->).
+        set (TS := x0 :: r0) in *. set (LS := map snd TS) in *.
+        assert (Hd : Nat.leb max_depth d = false) by (unfold LS, TS in E1; cbn [map] in E1; apply (tuple_depth_ok o d _ _ false u E1)).
+        destruct (tuple_projection o d LS false u ltac:(unfold LS, TS; discriminate) E1) as (F & -> & Hlen & Hcol).
+        assert (Hall : forall i, exists T, trace_seq' o (S d) (col i (LS ++ LS)) (Ok (TUnknown false)) = Ok T /\ teq (nth_tracer F i) T).
+        { intros i. rewrite col_app. destruct (IH (S d) (col i LS) _ (Hh i) (Hcol i)) as (T2 & R2 & Hq). exists T2. split; assumption. }
+        destruct (tuple_complete o d (LS ++ LS) false Hd (fun i => let (T, HT) := Hall i in ex_intro _ T (proj1 HT))) as (u2 & E2).
+        rewrite (strip0 o d (vs ++ vs)) by (rewrite cores_app, Hc, <- map_app; first [apply containers_map; exact Htc|discriminate]).
+        rewrite cores_app, Hc, <- map_app, nullish_dup, tups_collection, map_app. fold LS. rewrite E2, omk_ok. eexists. split; [reflexivity|]. apply teq_mk.
+        destruct (tuple_projection o d (LS ++ LS) false u2 ltac:(unfold LS, TS; discriminate) E2) as (F2 & -> & Hlen2 & Hcol2).
+        apply teq_tuple; [rewrite Hlen, Hlen2, maxlen_app; lia|].
+        intros i. destruct (Hall i) as (T & RT & Hq). rewrite (Hcol2 i) in RT. injection RT as <-. exact Hq.
       + (* enum variants *)
         destruct (cores vs) as [|c0 r0] eqn:Hc.
         { destruct (cores_nil_atoms o vs Hc) as (l & Hl). exists t. split; [|apply (leaf_result_teq o d vs l t Hl H1)]. rewrite trace_seq_same in *. apply (leaf_repeat o d vs l t Hl H1). }
